@@ -18,7 +18,7 @@ def main():
     a = ap.parse_args()
     lib.import_repo()
     mod = importlib.import_module(f"props.{a.pid}")
-    chk = lib.Check(a.pid, a.tier, a.seed)
+    chk = lib.Check(a.pid, a.tier, a.seed, keep_replays=bool(a.replay))
     try:
         if a.replay:
             rc = mod.replay(chk, a.replay)
